@@ -14,6 +14,10 @@ Decides:
  R  repetition    a repeated item (many/some/last/count/collect) hands parse_option one counter for the whole repetition, so
                   the extra evaluation that finds nothing on the line and falls back to the variable does not count as
                   an occurrence and cannot override or follow the values from the line (shared with C06.K5).
+ V  same validation  a value taken from the variable consumed nothing from the line; optional/many/.. still treat a failed conversion or
+                  guard of it as final (rows of the parse_option table with nothing consumed, shared with C06).
+ U  usage fallback   an empty line whose items are all satisfied from the environment yields the value: the usage text replaces only a
+                  failure (shared with C10).
  M  both absent   the absent exits build Missing(item) or NoEnv(name); both are catchable (defaults apply).
 Does not decide: behaviour of the wrappers around an env-backed item (C06)."""
 import re
@@ -26,7 +30,7 @@ LEVEL = 'other'
 EXPLANATION = __doc__
 ASSUMPTIONS = ['std::env::var_os returns the current value of exactly the named variable',
                'the supports-color crate only influences whether colours are printed']
-FLOORS = {'W.who-may-read': 6, 'P.name-provenance': 3, 'F.flag-precedence': 4, 'A.argument-precedence': 4, 'J.single-conversion': 3, 'M.both-absent': 4, 'R.repetition': 5}
+FLOORS = {'W.who-may-read': 6, 'P.name-provenance': 3, 'F.flag-precedence': 4, 'A.argument-precedence': 4, 'J.single-conversion': 3, 'M.both-absent': 4, 'R.repetition': 5, 'V.same-validation': 4, 'U.usage-fallback': 2}
 
 ENV_TABLE = {
     # (function, env fn) -> reason
@@ -60,6 +64,11 @@ def run(ctx):
         ctx.guard(absent, ctx, cfg, fs)
         import c06
         ctx.guard(c06.len_threaded, ctx, cfg, fs, 'R.repetition')
+        import c08, c10
+        # a value that came from the variant consumed nothing: the wrappers must still treat a failed conversion / guard of it as final
+        ctx.guard(c08.keep_only, ctx, lambda: c06.k3(ctx, cfg, fs, c06.k1(ctx, cfg, fs)),
+                  lambda o: o.rule == 'K3.consult' and 'parse_option:Err(' in o.key and 'consumed=False' in o.key and any(v_ in o.key for v_ in ('ParseFailed', 'GuardFailed')), 'V.same-validation')
+        ctx.guard(c08.keep_only, ctx, lambda: c10.usage_fallback(ctx, cfg, ctx.look(fs.one(r'^info::OptionParser::<T>::run_subparser$')), 'U.usage-fallback'), lambda o: True, 'U.usage-fallback')
 
 def outer(path):
     return path.split('::{closure')[0]
